@@ -112,6 +112,13 @@ def main():
         demo_cmd = re.sub(r"/tmp/wt/%s(?![-\w])" % pid, wt, demo_cmd)
         # 1. unchanged tree: demo passes
         rc0, out0 = sh(demo_cmd, cwd=wt)
+        for attempt in range(3):
+            if rc0 == 0:
+                break
+            # demonstrations that use real loopback sockets fail now and then while other
+            # workers use the same addresses: "passes without the change" may take a retry
+            time.sleep(5)
+            rc0, out0 = sh(demo_cmd, cwd=wt)
         meta["demo_without_patch"] = "pass" if rc0 == 0 else "FAIL"
         # 2. apply patch: builds, demo fails, package tests pass
         rc, out = sh("git apply %s" % patch, cwd=wt)
